@@ -260,16 +260,15 @@ class Algebra:
         A(("time0", z3.ForAll([t, u], z3.Implies(z3.And(tlen(t) == tlen(u), tlen(t) >= 1), z3.And(
             z3.Implies(tlt(t, u), tier(t, 0) <= tier(u, 0)),
             z3.Implies(tier(t, 0) < tier(u, 0), tlt(t, u))))), "lemma:time_vs_world_time"))
+        # times are canonical terms: equal tiers = equal times (dataclass __eq__ of TieredTime compares
+        # the tiers tuples; the model identifies == with term equality)
+        self.optional = {}
+        self.optional["time_extensional"] = (z3.ForAll([t, u], z3.Implies(
+            z3.And(tlen(t) == tlen(u), z3.ForAll([i], z3.Implies(z3.And(0 <= i, i < tlen(t)), tier(t, i) == tier(u, i)))),
+            t == u)), "dataclass __eq__ of TieredTime (encoder rule)")
         # constructors
         A(("mkT1", z3.ForAll([x], z3.And(tlen(self.f_mkT1(x)) == 1, tier(self.f_mkT1(x), 0) == x)),
            "TieredTime.__init__ (dataclass field assignment)"))
-        fw = self.f_world
-        A(("at_world_shape", z3.ForAll([x, n], z3.And(tlen(fw(x, n)) == n, tier(fw(x, n), 0) == x)), "TieredTime.__add__:post"))
-        A(("at_world_zero", z3.ForAll([x, n, i], z3.Implies(z3.And(1 <= i, i < n), tier(fw(x, n), i) == 0)),
-           "TieredTime.__add__:post"))
-        # (x, 0, .., 0) is the least time with world time x (tiers are non-negative)
-        A(("at_world_least", z3.ForAll([t, n], z3.Implies(
-            z3.And(tlen(t) == n, n >= 1, self.t_nonneg(t)), le(fw(tier(t, 0), n), t))), "lemma:never_backwards"))
 
 
 _q = itertools.count()
@@ -1077,6 +1076,8 @@ class Model:
         self.small_sync(p, h)
 
     def havoc_loop_heap(self, it, st, env):
+        if "heap" not in it.p.ghost:
+            return NotImplemented
         c = getattr(self.s, "cur_contract", None)
         fr = it.frame
         k, o = fr.node_ord.get(id(st), (None, None))
